@@ -17,101 +17,47 @@ Theorem C40_number_syntax : forall s v r,
 Proof. exact scan_int_shape. Qed.
 Print Assumptions C40_number_syntax.
 
-(* --- PORT / PASV: Ftp::ParseIpPort without forceIp --- *)
-(* accepted => six numbers were converted, the values the code keeps (after %d's conversion to int) are octets,
-   the port is p1*256+p2 in 1..65535 (>= 1024 under ftp_sanitycheck), the address is exactly h1.h2.h3.h4, not 0.0.0.0 *)
-Theorem C40_port_accepted_stored_components_in_range : forall ipf sanity buf a port,
-  parse_ip_port ipf sanity None buf = Some (a, port) ->
-  exists v1 v2 v3 v4 v5 v6,
-    scan_commas 6 buf = [v1; v2; v3; v4; v5; v6] /\
-    zoctet (to_int v1) /\ zoctet (to_int v2) /\ zoctet (to_int v3) /\ zoctet (to_int v4) /\
-    zoctet (to_int v5) /\ zoctet (to_int v6) /\
-    port = (to_int v5 * 256 + to_int v6)%Z /\ (1 <= port <= 65535)%Z /\ (sanity = true -> 1024 <= port)%Z /\
-    a = v4mapped (to_int v1) (to_int v2) (to_int v3) (to_int v4) /\
-    ~ (to_int v1 = 0 /\ to_int v2 = 0 /\ to_int v3 = 0 /\ to_int v4 = 0)%Z.
-Proof. exact parse_ip_port_sound. Qed.
-Print Assumptions C40_port_accepted_stored_components_in_range.
-
-(* the property at full strength (the numbers WRITTEN in the string are in range) under the restriction that
-   every written number fits an int. Missing: numbers beyond the int range, see the two refutations. *)
-Theorem C40_port_components_in_range_partial : forall ipf sanity buf a port,
-  parse_ip_port ipf sanity None buf = Some (a, port) ->
-  Forall (fun v => - two31 <= v < two31)%Z (scan_commas 6 buf) ->
+(* --- PORT / PASV: Ftp::ParseIpPort, with or without forceIp --- *)
+(* accepted => six numbers were converted and every WRITTEN number (mathematical value of its digits, of any length)
+   is an octet; the port is p1*256+p2 in 1..65535 (>= 1024 under ftp_sanitycheck); without forceIp the address is
+   exactly h1.h2.h3.h4 and not 0.0.0.0; with forceIp (PASV replies under ftp_sanitycheck) the host numbers are
+   validated all the same and the address is the forced one *)
+Theorem C40_port_accepted_components_in_range : forall ipf sanity force buf a port,
+  parse_ip_port ipf sanity force buf = Some (a, port) ->
   exists v1 v2 v3 v4 v5 v6,
     scan_commas 6 buf = [v1; v2; v3; v4; v5; v6] /\
     zoctet v1 /\ zoctet v2 /\ zoctet v3 /\ zoctet v4 /\ zoctet v5 /\ zoctet v6 /\
     port = (v5 * 256 + v6)%Z /\ (1 <= port <= 65535)%Z /\ (sanity = true -> 1024 <= port)%Z /\
-    a = v4mapped v1 v2 v3 v4 /\ ~ (v1 = 0 /\ v2 = 0 /\ v3 = 0 /\ v4 = 0)%Z.
-Proof. exact parse_ip_port_components_partial. Qed.
-Print Assumptions C40_port_components_in_range_partial.
+    match force with
+    | None => a = v4mapped v1 v2 v3 v4 /\ ~ (v1 = 0 /\ v2 = 0 /\ v3 = 0 /\ v4 = 0)%Z
+    | Some t => a = assign ipf t
+    end.
+Proof. exact parse_ip_port_sound. Qed.
+Print Assumptions C40_port_accepted_components_in_range.
 
-(* full statement refuted: "1,2,3,4,4294967300,0" is accepted under ftp_sanitycheck as port 1024 *)
-Theorem C40_port_components_in_range_refuted :
-  exists buf a port vs,
-    parse_ip_port (fun _ => None) true None buf = Some (a, port) /\ scan_commas 6 buf = vs /\
-    ~ Forall zoctet vs.
-Proof. exact parse_ip_port_components_refuted. Qed.
-Print Assumptions C40_port_components_in_range_refuted.
-
-(* and "4294967297,2,3,4,5,6" is accepted as 1.2.3.4 *)
-Theorem C40_port_host_component_in_range_refuted :
-  exists buf a port vs,
-    parse_ip_port (fun _ => None) false None buf = Some (a, port) /\ scan_commas 6 buf = vs /\
-    ~ Forall zoctet vs.
-Proof. exact parse_ip_port_host_refuted. Qed.
-Print Assumptions C40_port_host_component_in_range_refuted.
-
-(* --- PASV with forceIp (ftp_sanitycheck on: the control connection's peer address is used) --- *)
-Theorem C40_pasv_forced_port_in_range : forall ipf sanity t buf a port,
-  parse_ip_port ipf sanity (Some t) buf = Some (a, port) ->
-  exists v1 v2 v3 v4 v5 v6,
-    scan_commas 6 buf = [v1; v2; v3; v4; v5; v6] /\
-    zoctet (to_int v5) /\ zoctet (to_int v6) /\
-    port = (to_int v5 * 256 + to_int v6)%Z /\ (1 <= port <= 65535)%Z /\ (sanity = true -> 1024 <= port)%Z /\
-    a = assign ipf t.
-Proof. exact parse_ip_port_forced_sound. Qed.
-Print Assumptions C40_pasv_forced_port_in_range.
-
-(* "every component in range" is false with forceIp: "999,2,3,4,5,6" is accepted, whatever the lookup answers *)
-Theorem C40_pasv_forced_host_refuted : forall ipf t,
-  exists a port vs,
-    parse_ip_port ipf true (Some t) w_forced = Some (a, port) /\ scan_commas 6 w_forced = vs /\
-    ~ Forall zoctet vs.
-Proof. exact parse_ip_port_forced_refuted. Qed.
-Print Assumptions C40_pasv_forced_host_refuted.
+(* "and otherwise are rejected": any written number outside 0..255 -- negative, huge, or beyond the long range, which
+   "%ld" stores clamped to LONG_MIN / LONG_MAX (sat64 in the model) -- makes the parser refuse *)
+Theorem C40_port_rejects_out_of_range_components : forall ipf sanity force buf,
+  ~ Forall zoctet (scan_commas 6 buf) -> parse_ip_port ipf sanity force buf = None.
+Proof. exact parse_ip_port_rejects_non_octets. Qed.
+Print Assumptions C40_port_rejects_out_of_range_components.
 
 (* --- EPRT: Ftp::ParseProtoIpPort --- *)
-(* accepted => the string is <d> net-prt <d> text <d> port '|'...; net-prt as an int is 1 or 2 and agrees with the
+(* accepted => the string is <d> net-prt <d> text <d> port '|'...; the WRITTEN net-prt is 1 or 2 and agrees with the
    family of the address; the address is the lookup of exactly the delimited text (shorter than MAX_IPSTRLEN), not a
    wildcard; the MATHEMATICAL value of the port digits is in 1..65535 (>= 1024 under ftp_sanitycheck) and is the
-   port returned: no truncation into the valid range (the repaired F7) *)
+   port returned: nothing is truncated or clamped into the valid range *)
 Theorem C40_eprt_accepted_in_range : forall ipf sanity buf a port,
   parse_proto_ip_port ipf sanity buf = EOk a port ->
   exists d s pv s2 ip s3 e3,
     buf = d :: s /\
-    scan_int s = Some (pv, d :: s2) /\ (to_int pv = 1 \/ to_int pv = 2)%Z /\
+    scan_int s = Some (pv, d :: s2) /\ (pv = 1 \/ pv = 2)%Z /\
     s2 = ip ++ d :: s3 /\ forallb (fun c => negb (c =? d)) ip = true /\ lenN ip < max_ipstrlen /\
-    ipf ip = Some a /\ is_any a = false /\ ((to_int pv = 2)%Z <-> is_v4 a = false) /\
+    ipf ip = Some a /\ is_any a = false /\ ((pv = 2)%Z <-> is_v4 a = false) /\
     scan_int s3 = Some (port, e3) /\ head0 e3 = 124 /\
     (1 <= port <= 65535)%Z /\ (sanity = true -> 1024 <= port)%Z.
 Proof. exact parse_proto_sound. Qed.
 Print Assumptions C40_eprt_accepted_in_range.
-
-(* the written protocol number itself is 1 or 2 when it fits an int. Missing: larger numbers, refuted below *)
-Theorem C40_eprt_protocol_in_range_partial : forall ipf sanity d s a port pv r,
-  parse_proto_ip_port ipf sanity (d :: s) = EOk a port ->
-  scan_int s = Some (pv, r) -> (- two31 <= pv < two31)%Z ->
-  (pv = 1 \/ pv = 2)%Z /\ ((pv = 2)%Z <-> is_v4 a = false).
-Proof. exact parse_proto_protocol_partial. Qed.
-Print Assumptions C40_eprt_protocol_in_range_partial.
-
-(* "|4294967297|1.2.3.4|8080|" is accepted as protocol 1 *)
-Theorem C40_eprt_protocol_in_range_refuted :
-  exists ipf buf a port pv r,
-    parse_proto_ip_port ipf true buf = EOk a port /\ scan_int (dropN 1 buf) = Some (pv, r) /\
-    ~ (pv = 1 \/ pv = 2)%Z.
-Proof. exact parse_proto_protocol_refuted. Qed.
-Print Assumptions C40_eprt_protocol_in_range_refuted.
 
 (* the parser's only precondition is a non-empty string (it reads buf[1] unconditionally) *)
 Theorem C40_eprt_total_on_nonempty : forall ipf sanity buf,
@@ -168,9 +114,26 @@ Print Assumptions C40_listing_unix_name_is_line_tail.
 Example C40_ex_port : parse_ip_port (fun _ => None) true None [49;44;50;44;51;44;52;44;53;44;54]
                       = Some (v4mapped 1 2 3 4, 1286%Z).
 Proof. vm_compute. reflexivity. Qed.
+(* forceIp: "1,2,3,4,5,6" yields the forced address *)
+Example C40_ex_portf : parse_ip_port w_ipf true (Some w_ip1234) [49;44;50;44;51;44;52;44;53;44;54]
+                       = Some (v4mapped 1 2 3 4, 1286%Z).
+Proof. vm_compute. reflexivity. Qed.
 (* "|1|1.2.3.4|8080|" *)
 Example C40_ex_eprt : parse_proto_ip_port w_ipf true ([124;49;124] ++ w_ip1234 ++ [124;56;48;56;48;124])
                       = EOk (v4mapped 1 2 3 4) 8080%Z.
+Proof. vm_compute. reflexivity. Qed.
+(* the reproducers of the repaired findings are refused: "1,2,3,4,4294967300,0", "4294967297,2,3,4,5,6",
+   "999,2,3,4,5,6" with forceIp, "1,2,3,4,5,<10^30>" (clamped to LONG_MAX), "|4294967297|1.2.3.4|8080|" *)
+Example C40_ex_port_wrap_p1 : parse_ip_port (fun _ => None) true None w_port_wrap_p1 = None.
+Proof. vm_compute. reflexivity. Qed.
+Example C40_ex_port_wrap_h1 : parse_ip_port (fun _ => None) false None w_port_wrap = None.
+Proof. vm_compute. reflexivity. Qed.
+Example C40_ex_forced_host : forall ipf t, parse_ip_port ipf true (Some t) w_forced = None.
+Proof. intros. vm_compute. reflexivity. Qed.
+Example C40_ex_port_clamped : parse_ip_port (fun _ => None) false None
+  ([49;44;50;44;51;44;52;44;53;44;49] ++ repeat 48 30) = None.
+Proof. vm_compute. reflexivity. Qed.
+Example C40_ex_eprt_proto_wrap : parse_proto_ip_port w_ipf true w_eprt_wrap = EFail.
 Proof. vm_compute. reflexivity. Qed.
 (* "|1|1.2.3.4|65616|" (the old F7 reproducer) is refused *)
 Example C40_ex_eprt_f7 : parse_proto_ip_port w_ipf false ([124;49;124] ++ w_ip1234 ++ [124;54;53;54;49;54;124]) = EFail.
